@@ -117,6 +117,7 @@ def stopsAt : GSpec → List V → V → Bool
   | .list _ f, _, x => isStop (f.val x)
   | .limit _ n sub, its, x => decide (n ≤ its.length) || stopsAt sub its x
   | .nested .., _, _ => false
+  | .foldG .., _, _ => false
   | .dict _ _ key sub, its, x =>
     isStop (key.val x) ||
       (!(isSkip (key.val x)) && stopsAt sub (bucketOf (buckets key its) (key.val x)) x)
@@ -168,6 +169,8 @@ def implOf : GSpec → List V → V
     match its.getLast? with
     | some x => emptyOr g (implOf g) (cutEvent g ((iterOf x).getD []))
     | none => .none
+  | .foldG _ kind _ g, its =>
+    refAgg kind.agg (its.map (fun x => emptyOr g (implOf g) (cutEvent g ((iterOf x).getD []))))
   | .dict _ _ key sub, its =>
     .dict (((bucketize key its).filter (bucketHasVal sub)).map (fun b => (b.1, implOf sub b.2)))
 
@@ -185,6 +188,8 @@ def implNoCut : GSpec → List V → V
     match its.getLast? with
     | some x => emptyOr g (implNoCut g) ((iterOf x).getD [])
     | none => .none
+  | .foldG _ kind _ g, its =>
+    refAgg kind.agg (its.map (fun x => emptyOr g (implNoCut g) ((iterOf x).getD [])))
   | .dict _ _ key sub, its =>
     .dict (((bucketize key its).filter (bucketHasVal sub)).map (fun b => (b.1, implNoCut sub b.2)))
 
@@ -209,6 +214,10 @@ def refOfC (cut : Bool) : GSpec → List V → V
   | .nested _ g, its =>
     if its.isEmpty then .none
     else lastNonSkip (its.map (fun x =>
+      unskip (refOfC cut g (if cut then cutEvent g ((iterOf x).getD []) else (iterOf x).getD []))))
+  | .foldG _ kind _ g, its =>
+    -- the Fold's Python reference over the per-item results of a FRESH grouping of each item
+    refAgg kind.agg (its.map (fun x =>
       unskip (refOfC cut g (if cut then cutEvent g ((iterOf x).getD []) else (iterOf x).getD []))))
   | .dict _ _ key sub, its =>
     .dict (((bucketize key its).map (fun b => (b.1, refOfC cut sub b.2))).filter (fun e => !(isSkip e.2)))
@@ -267,6 +276,9 @@ def wfRun : GSpec → List V → Bool
   | .list _ f, its => its.all (applyOk f)
   | .limit _ _ sub, its => wfRun sub its
   | .nested _ g, its => its.all (fun x => isSeqV x && wfRun g ((iterOf x).getD []))
+  | .foldG _ kind _ g, its =>
+    its.all (fun x => isSeqV x && wfRun g ((iterOf x).getD [])) &&
+    aggOk kind.agg (its.map (fun x => emptyOr g (implOf g) (cutEvent g ((iterOf x).getD []))))
   | .dict _ _ key sub, its =>
     its.all (fun x => applyOk key x && hashable (key.val x)) &&
     (buckets key its).all (fun b => wfRun sub b.2)
@@ -282,6 +294,8 @@ def canSkip : GSpec → Bool
 
 def noSkipBelow (below : Bool) : GSpec → List V → Bool
   | .fn f, its => !below || its.all (fun x => !(isSkip (f.val x)))
+  | .foldG _ _ _ g, its =>
+    (its.isEmpty || !(canSkip g)) && its.all (fun x => noSkipBelow false g ((iterOf x).getD []))
   | .nested _ g, its =>
     (its.isEmpty || !(below && canSkip g)) && its.all (fun x => noSkipBelow false g ((iterOf x).getD []))
   | .dict _ _ _ sub, its => noSkipBelow true sub its
@@ -291,6 +305,9 @@ def noSkipBelow (below : Bool) : GSpec → List V → Bool
 /-- no STOP event in the runs of nested Groups either, and none of them sees nothing (then
     `implTop` is the property's reference) -/
 def nestedFree : GSpec → List V → Bool
+  | .foldG _ _ _ g, its =>
+    its.all (fun x => eventFree g ((iterOf x).getD []) && !((iterOf x).getD []).isEmpty &&
+      nestedFree g ((iterOf x).getD []))
   | .nested _ g, its =>
     its.all (fun x => eventFree g ((iterOf x).getD []) && !((iterOf x).getD []).isEmpty &&
       nestedFree g ((iterOf x).getD []))
@@ -306,6 +323,7 @@ def slotApart : GSpec → List V → Bool
     its.all (fun x => !(keyEq (idKey id) (key.val x))) && slotApart sub its
   | .limit _ _ sub, its => slotApart sub its
   | .nested _ g, its => its.all (fun x => slotApart g ((iterOf x).getD []))
+  | .foldG _ _ _ g, its => its.all (fun x => slotApart g ((iterOf x).getD []))
   | _, _ => true
 
 /-- **H2 (one namespace, no collision)**: no bucket key equals `id()` of its own spec dict
@@ -315,6 +333,7 @@ def keysApart : GSpec → List V → Bool
     its.all (fun x => !(keyEq (idKey id) (key.val x)) && !(keyEq (.obj kid) (key.val x))) && keysApart sub its
   | .limit _ _ sub, its => keysApart sub its
   | .nested _ g, its => its.all (fun x => keysApart g ((iterOf x).getD []))
+  | .foldG _ _ _ g, its => its.all (fun x => keysApart g ((iterOf x).getD []))
   | _, _ => true
 
 /-- the runs on which the code does what the property says: H2', no SKIP from a bare function /
@@ -336,6 +355,7 @@ def hasStopSource : GSpec → List V → Bool
   | .fn f, its => its.any (fun x => isStop (f.val x))
   | .list _ f, its => its.any (fun x => isStop (f.val x))
   | .nested .., _ => false
+  | .foldG .., _ => false
   | .dict _ _ key sub, its => its.any (fun x => isStop (key.val x)) || hasStopSource sub its
 
 /-- F9: a STOP source under a key level whose key takes more than one value -/
@@ -343,6 +363,7 @@ def f9Shape : GSpec → List V → Bool
   | .dict _ _ key sub, its => (distinctKeys key its > 1 && hasStopSource sub its) || f9Shape sub its
   | .limit _ _ sub, its => f9Shape sub its
   | .nested _ g, its => its.any (fun x => f9Shape g ((iterOf x).getD []))
+  | .foldG _ _ _ g, its => its.any (fun x => f9Shape g ((iterOf x).getD []))
   | _, _ => false
 
 /-- WHICH known deviation from the hand-written loop a failing evaluation shows (the classifier of
